@@ -10,6 +10,124 @@ def viol(report, rule, b, kind, msg, sn=""):
     report.violate(Violation(report.key(b.qname, rule, kind, sn), "%s:%d" % (b.file, b.line), rule, "%s: %s" % (rule, msg)))
 
 
+def _is_phi(sym):
+    return sym.startswith("phi(")
+
+
+def _classify(v, var):
+    """shape of a value flowing into loop variable `var` at a join"""
+    if v.is_const():
+        return ("const", v.c)
+    d = v.d()
+    if len(d) == 1 and v.c == 0:
+        (s, k), = d.items()
+        if k == 1 and (_is_phi(s) or s.endswith("@entry")):
+            return ("same", s)
+        if k == 1:
+            return ("sym", s)
+    elems = [s for s, k in d.items() if s.startswith("elem(*_1[") and k == 1]
+    rest = [s for s, k in d.items() if not s.startswith("elem(*_1[")]
+    if len(elems) == 1 and v.c == 1 and all(d[s] == 1 and (_is_phi(s) or s.endswith("@entry")) for s in rest) and len(rest) <= 1:
+        return ("label", elems[0])
+    return ("other", repr(v))
+
+
+def dispatch_rules(ctx, report, b, an, pp, ns):
+    # ---- R7: state at the 16-bit read of the pointer arm
+    rd = [r for r in an.reads if r["width"] == 2 and r["root"] == "_1"]
+    rd_syms = sorted(set(r["sym"] for r in rd))
+    report.count()
+    if len(rd_syms) != 1 or any(r["order"] != "BE" for r in rd):
+        viol(report, "C06-R8", b, "pointer-read", "Name::parse does not read the pointer as one 16-bit big-endian value (reads: %s)" % (
+            [(r["sym"], r["width"], r["order"]) for r in an.reads],))
+        return
+    rbi = rd[0]["bi"]
+    # the test on the length byte is made right after the byte is read; joins between it and the 16-bit read rename the
+    # cursor, so the fact is looked for at the nearest dominator of the read from which the cursor is not reassigned
+    dom = mu.dominators(b)
+    lps, _irr, _d = loops.natural_loops(b)
+    heads = set(lps)
+    preds = b.compute_preds()
+    ppl = int(pp[1:])
+    n7 = 0
+    found = None
+    for D in sorted(dom[rbi], key=lambda x: -len(dom[x])):
+        if D in heads:
+            break
+        # blocks on paths D -> rbi (not going round the loop)
+        fwd = mu.reachable_from(b, D, avoid=heads)
+        back = set()
+        stack = [rbi]
+        while stack:
+            x = stack.pop()
+            if x in back or x in heads:
+                continue
+            back.add(x)
+            if x != D:
+                stack.extend(preds[x])
+        region = fwd & back
+        reassigned = any(s2["s"] == "assign" and s2["pl"]["l"] == ppl and not s2["pl"]["p"]
+                         for x in region for s2 in b.blocks[x]["stmts"])
+        if reassigned:
+            continue
+        nodes = [n for n in an.entry if n[0] == D]
+        if not nodes:
+            continue
+        allok = True
+        for n in nodes:
+            st = an.entry[n]
+            cur = st.store.get(pp)
+            if cur is None or cur[0] != "lin" or not entails(st.facts, an.iv, Lin.const(192) - Lin.sym("elem(*_1[%r])" % (cur[1],)), an.depth):
+                allok = False
+        if allok:
+            found = (D, len(nodes))
+            break
+    report.count()
+    if found:
+        n7 = found[1]
+        report.nontriv("R7 bb%d" % found[0])
+        report.sample({"rule": "R7", "at": "bb%d (dominates the 16-bit pointer read at bb%d)" % (found[0], rbi),
+                       "entailed": "length byte >= 0xC0 in all %d analysis states" % found[1]})
+    else:
+        viol(report, "C06-R7", b, "pointer-arm", "the pointer arm is reachable with a length byte that is not known to be >= 0xC0: bytes "
+             "0x40-0xBF (reserved label types 01 and 10) would be followed as compression pointers instead of being rejected", "pointer-arm")
+    report.floor("pointer-arm states examined", n7, 1 if not report.violations else 0)
+    # ---- R8 / R9: what flows into the read cursor and the size counter at the loop joins
+    n_ptr = n_lab = 0
+    for n, (phis, incoming, back) in sorted(an.join_info.items(), key=lambda x: repr(x[0])):
+        for var, rule in ((pp, "C06-R8"), (ns, "C06-R9")):
+            if var not in phis:
+                continue
+            name, vs = phis[var]
+            for v in vs:
+                report.count()
+                kind = _classify(v, var)
+                if kind[0] == "same" or (kind[0] == "const" and var == ns and kind[1] == 0):
+                    continue
+                if kind[0] == "label":
+                    n_lab += 1
+                    continue
+                if var == pp and kind[0] == "sym" and kind[1] in an.bitand:
+                    x, m = an.bitand[kind[1]]
+                    if x == Lin.sym(rd_syms[0]) and m == 0x3FFF:
+                        n_ptr += 1
+                        report.nontriv("R8 target")
+                        continue
+                    viol(report, rule, b, "pointer-target", "the pointer target is (%r & %#06x); RFC 1035 4.1.4 defines it as the low 14 bits "
+                         "(0x3FFF) of the two bytes at the cursor" % (x, m), "pointer-target")
+                    continue
+                if var == pp:
+                    viol(report, rule, b, "cursor-move", "the read cursor is set to %s: only `cursor + 1 + label length` and `16-bit read & "
+                         "0x3FFF` are decoding steps of RFC 1035" % kind[1], "cursor-move")
+                else:
+                    viol(report, rule, b, "size-accounting", "the size counted against the 255-byte limit becomes %s: it must grow by exactly "
+                         "1 + label length per label and not change when a pointer is followed (a legal 255-byte name reached through "
+                         "pointers would be rejected, or an over-long one accepted)" % kind[1], "size-accounting")
+    report.floor("pointer targets examined", n_ptr, 1 if not report.violations else 0)
+    report.floor("label steps examined", n_lab, 2 if not report.violations else 0)
+    report.sample({"rule": "R7-R9", "pointer": "%s & 0x3FFF under length byte >= 0xC0" % rd_syms[0], "label": "cursor, size += 1 + length"})
+
+
 def run(ctx):
     prog = ctx.prog
     report = Report("C06", ctx, "On <Name as WireFormat>::parse, from the numeric analysis of its MIR: R1 every label pushed has 1..=63 "
@@ -144,5 +262,6 @@ def run(ctx):
                 report.nontriv("R6 transition")
             else:
                 viol(report, "C06-R6", b, "cursor-transition", "at the first pointer the caller cursor is not shown to become pointer position + 1")
+    dispatch_rules(ctx, report, b, an, pp, ns)
     report.assumptions += ["A-OVF", "that the label bytes equal a reference decoder's for all inputs follows from R1-R6 by inspection, not mechanically"]
     return report.finish()
